@@ -15,14 +15,16 @@ Inductive instr :=
 | IJ (t : N) | IJz (r : nat) (t : N)
 | INop
 | II2r (r i : nat) | IR2o (r o : nat)
-| II2rw (r i : nat) | IR2owa (r o : nat).
+| II2rw (r i : nat) | IR2owa (r o : nat)
+| IAddp (d s : nat) | IMultp (d s : nat).
 
 Record pstate := mkP {
   pc : N;
   regs : list N;
   inputs : list N; in_valid : list bool; in_recv : list bool;
   outputs : list N; out_valid : list bool; out_recv : list bool;
-  deferred : list nat          (* inputs with a pending waitRecvI2rw *)
+  deferred : list nat;         (* inputs with a pending waitRecvI2rw *)
+  phases : list bool           (* per-processor pipeline phase of addp, multp, divp (vm.Extra_states) *)
 }.
 
 Definition nthN (l : list N) (k : nat) : N := nth k l 0.
@@ -32,13 +34,15 @@ Fixpoint upd {A} (k : nat) (v : A) (l : list A) : list A :=
 
 Definition init_pstate (rbits : nat) (n m : nat) : pstate :=
   mkP 0 (repeat 0 (2 ^ rbits)) (repeat 0 n) (repeat false n) (repeat false n)
-      (repeat 0 m) (repeat false m) (repeat false m) [].
+      (repeat 0 m) (repeat false m) (repeat false m) [] [false; false; false].
 
 Definition with_pc (p : pstate) (v : N) : pstate :=
-  mkP v (regs p) (inputs p) (in_valid p) (in_recv p) (outputs p) (out_valid p) (out_recv p) (deferred p).
+  mkP v (regs p) (inputs p) (in_valid p) (in_recv p) (outputs p) (out_valid p) (out_recv p) (deferred p) (phases p).
 Definition with_reg (p : pstate) (r : nat) (v : N) : pstate :=
-  mkP (pc p) (upd r v (regs p)) (inputs p) (in_valid p) (in_recv p) (outputs p) (out_valid p) (out_recv p) (deferred p).
+  mkP (pc p) (upd r v (regs p)) (inputs p) (in_valid p) (in_recv p) (outputs p) (out_valid p) (out_recv p) (deferred p) (phases p).
 Definition next_pc (p : pstate) : pstate := with_pc p (pc p + 1).
+Definition with_phase (p : pstate) (k : nat) (b : bool) : pstate :=
+  mkP (pc p) (regs p) (inputs p) (in_valid p) (in_recv p) (outputs p) (out_valid p) (out_recv p) (deferred p) (upd k b (phases p)).
 
 Definition M (rsize : N) : N := 2 ^ rsize.
 Definition small (rsize : N) : bool := (rsize =? 8) || (rsize =? 16).
@@ -69,19 +73,21 @@ Definition exec (rsize : N) (proglen : N) (p : pstate) (i : instr) : pstate :=
   | INop => next_pc p
   | II2r r k => next_pc (with_reg p r (nthN (inputs p) k))
   | IR2o r k => next_pc (mkP (pc p) (regs p) (inputs p) (in_valid p) (in_recv p)
-                             (upd k (R r) (outputs p)) (out_valid p) (out_recv p) (deferred p))
+                             (upd k (R r) (outputs p)) (out_valid p) (out_recv p) (deferred p) (phases p))
   | II2rw r k =>
       if nthB (in_valid p) k then
         mkP (pc p + 1) (upd r (nthN (inputs p) k) (regs p)) (inputs p) (in_valid p) (upd k true (in_recv p))
             (outputs p) (out_valid p) (out_recv p)
-            (if existsb (Nat.eqb k) (deferred p) then deferred p else deferred p ++ [k])
+            (if existsb (Nat.eqb k) (deferred p) then deferred p else deferred p ++ [k]) (phases p)
       else mkP (pc p) (regs p) (inputs p) (in_valid p) (upd k false (in_recv p))
-               (outputs p) (out_valid p) (out_recv p) (deferred p)
+               (outputs p) (out_valid p) (out_recv p) (deferred p) (phases p)
+  | IAddp d s => if nthB (phases p) 0 then with_phase (bin d (R d + R s)) 0 false else with_phase p 0 true
+  | IMultp d s => if nthB (phases p) 1 then with_phase (bin d (R d * R s)) 1 false else with_phase p 1 true
   | IR2owa r k =>
       let outs := upd k (R r) (outputs p) in
       if nthB (out_recv p) k then
-        mkP (pc p + 1) (regs p) (inputs p) (in_valid p) (in_recv p) outs (upd k false (out_valid p)) (out_recv p) (deferred p)
-      else mkP (pc p) (regs p) (inputs p) (in_valid p) (in_recv p) outs (upd k true (out_valid p)) (out_recv p) (deferred p)
+        mkP (pc p + 1) (regs p) (inputs p) (in_valid p) (in_recv p) outs (upd k false (out_valid p)) (out_recv p) (deferred p) (phases p)
+      else mkP (pc p) (regs p) (inputs p) (in_valid p) (in_recv p) outs (upd k true (out_valid p)) (out_recv p) (deferred p) (phases p)
   end.
 
 (* ExecuteDeferredInstructions: every pending waitRecvI2rw whose input is no longer valid drops
@@ -91,7 +97,7 @@ Definition run_deferred (p : pstate) : pstate :=
   let keep := filter (fun k => nthB (in_valid p) k) (deferred p) in
   mkP (pc p) (regs p) (inputs p) (in_valid p)
       (fold_left (fun l k => upd k false l) done (in_recv p))
-      (outputs p) (out_valid p) (out_recv p) keep.
+      (outputs p) (out_valid p) (out_recv p) keep (phases p).
 
 (* procbuilder.VM.Step without delay distributions *)
 Definition pstep (rsize : N) (prog : list instr) (p : pstate) : pstate :=
